@@ -64,7 +64,7 @@ CHECKS = {
    "One- and two-edit neighbourhoods of a finite seed set, not all byte strings; an abort (allocation failure, stack exhaustion) would be a machinery failure.", "DESIGN.md §2 E3 C14"),
  "C19": ("E7", "model_checking",
    "exhaustive exploration of outcome sequences x periods x signal plans of the real daemon loop in virtual time",
-   "The real Loop::start (interval, select!, back-off arithmetic, signal arms, handle_task(tokio::spawn(job))) runs under a paused tokio clock for every outcome string over {success, failure} up to length 8 (thorough 11) x 11 periods on both sides of the one-minute back-off x three run-duration profiles, long outages (40 failures) and panicking jobs; SIGHUP / SIGINT / SIGTERM are raised mid-wait and mid-run at instants placed relative to the undisturbed timeline; the agent binary's own main also runs in daemon mode against the fake router in real time and receives real signals during the normal wait and during a back-off (exit status 0, SIGHUP starts a run at once, no run without a cause). A constraint oracle (not a copy of the arithmetic) checks first run at 0, exact period after success, first retry after one minute, delays positive, within [min(60 s, period), max(60 s, period)], non-decreasing and growing below the period, immediate run on SIGHUP, clean exit on INT/TERM at the right instant.",
+   "The real Loop::start (interval, select!, back-off arithmetic, signal arms, handle_task(tokio::spawn(job))) runs under a paused tokio clock for every outcome string over {success, failure} up to length 8 (thorough 11) x 11 periods on both sides of the one-minute back-off x three run-duration profiles, long outages (40 failures) and panicking jobs; SIGHUP / SIGINT / SIGTERM are raised mid-wait and mid-run at instants placed relative to the undisturbed timeline; the agent binary's own main also runs in daemon mode against the fake router in real time and receives real signals during the normal wait and during a back-off, also with periods of one year and of u64::MAX seconds (exit status 0, SIGHUP starts a run at once, no run without a cause). A constraint oracle (not a copy of the arithmetic) checks first run at 0, exact period after success, first retry after one minute, delays positive, within [min(60 s, period), max(60 s, period)], non-decreasing and growing below the period, immediate run on SIGHUP, clean exit on INT/TERM at the right instant.",
    "The job body is scripted (hook H4); signal/timer ties to the millisecond are not generated; for periods below one minute the monotonicity clause is not applied (see DESIGN).", "DESIGN.md §2 E7"),
  "C11": ("E5", "exploration",
    "bounded-exhaustive expression grammar x IRR databases against an independent per-prefix membership oracle",
@@ -76,7 +76,7 @@ CHECKS = {
    "Connection loss mid-stream is not injected (irrc spins on EOF: dependency behaviour recorded in DESIGN).", "DESIGN.md §2 E5 C17"),
  "C04": ("E6", "fault_enumeration",
    "exhaustive fault enumeration: every fault kind at every position of the agent's request sequence, real agent end to end",
-   "The real agent (bgpfu_junos_agent::main, one-shot, local target through the stand-in cli of hook H2) runs against a fake Junos NETCONF server and a fake IRRd for N = 0..3 (thorough 0..4) managed policies; one fault per run at every position of open, get-config x2, load x N, commit, close-configuration, close-session and of every kind (rpc-error, warning+error, 'resource is taken' errors repeated for every later request of the same name, an error nested below a per-routing-engine results element, malformed reply, unknown message-id, re-used message-id, close before the reply, close after the reply, failing load reply delayed behind later loads); a slice with N = 1 repeats every position through the agent's remote (TLS) target; runs also start from a non-empty instance; a slow-uplink scenario (stepping stand-in cli, one-page pipe, loads larger than the pipe) delivers the error reply to load k while the agent is blocked writing load k+1. From the server's request log and the exit status: commit only after open and all N loads were positively acknowledged, no commit after a failed step, exit 0 iff every step was acknowledged, termination within the watchdog.",
+   "The real agent (bgpfu_junos_agent::main, one-shot, local target through the stand-in cli of hook H2) runs against a fake Junos NETCONF server and a fake IRRd for N = 0..3 (thorough 0..4) managed policies; one fault per run at every position of open, get-config x2, load x N, commit, close-configuration, close-session and of every kind (rpc-error, warning+error, 'resource is taken' errors repeated for every later request of the same name, an error nested below a per-routing-engine results element, one routing engine reporting success and the next an error, load replies whose <load-error-count> is 0 although they carry an error or no <ok/>, malformed reply, unknown message-id, re-used message-id, close before the reply, close after the reply, failing load reply delayed behind later loads); a slice with N = 1 repeats every position through the agent's remote (TLS) target; runs also start from a non-empty instance; a slow-uplink scenario (stepping stand-in cli, one-page pipe, loads larger than the pipe) delivers the error reply to load k while the agent is blocked writing load k+1. From the server's request log and the exit status: commit only after open and all N loads were positively acknowledged, no commit after a failed step, exit 0 iff every step was acknowledged, termination within the watchdog.",
    "The fake Junos implements the Junos XML protocol as documented; the agent is built inside the harness workspace from /repo's crates (same main body as the shipped binary).", "DESIGN.md §2 E6 C04"),
  "C15": ("E6", "fault_enumeration",
    "enumeration of unevaluable-policy kinds x policy sets x observed evaluation orders, real agent end to end",
@@ -88,7 +88,7 @@ CHECKS = {
    "Loopback only; read segmentation is verified through the client's own trace events on TLS and the pipe, and is by construction one packet per unit on SSH.", "DESIGN.md §2 E4 C06"),
  "C07": ("E4", "fault_enumeration",
    "exhaustive enumeration of close points x close kinds x outstanding requests against the real transports",
-   "On each real transport and for each close kind (clean / EOF / abort) the peer closes after every sampled (thorough: every) prefix of the hello, while the established session is idle, with 0-3 requests outstanding (awaited by separate tasks or by one caller in turn) before any reply byte, after prefixes of the reply stream and between two replies, (SSH) during connection setup before and after authentication, and (SSH) while a request larger than the peer's channel window waits for a window adjustment, and a peer that closes only its sending direction and stops reading; then a further request is issued (a large one in the last case). A panic inside the library or an operation that neither returns nor fails is a verdict too. Every pending and subsequent operation must resolve within a watchdog calibrated per run (at least 1.5 s, 40x the measured establishment latency), without zero-length-read loops or CPU burn, and Ok is accepted only for replies that were completely delivered before the close.",
+   "On each real transport and for each close kind (clean / EOF / abort) the peer closes after every sampled (thorough: every) prefix of the hello, while the established session is idle, with 0-3 requests outstanding (awaited by separate tasks or by one caller in turn) before any reply byte, after prefixes of the reply stream and between two replies, (SSH) during connection setup before and after authentication, and (SSH) while a request larger than the peer's channel window waits for a window adjustment, and a peer that closes only its sending direction and stops reading (idle, before any reply byte, after a prefix of the reply); then a further request is issued (a large one in the last case). A panic inside the library or an operation that neither returns nor fails is a verdict too. Every pending and subsequent operation must resolve within a watchdog calibrated per run (at least 1.5 s, 40x the measured establishment latency), without zero-length-read loops or CPU burn, and Ok is accepted only for replies that were completely delivered before the close.",
    "Real-time watchdog with three orders of magnitude of slack over loopback latency.", "DESIGN.md §2 E4 C07"),
  "C20": ("E4", "exploration",
    "exhaustive configuration matrix (transport x level x subscriber wiring x filter x outcome x secret) with an encoding search over the complete captured log",
